@@ -879,6 +879,14 @@ class Interp:
 
     def _loop_step_done(self, declared, env):
         from . import shapes
+        spec = self.loop_spec() or {}
+        chk = spec.get("__body_check__")
+        if chk is not None:
+            # element-wise postcondition of ONE arbitrary iteration (what the iteration must have done with its element)
+            for label, goal in chk(self, env, getattr(self, "_loop_trace_mark", 0)) or []:
+                if isinstance(goal, bool):
+                    goal = z3.BoolVal(goal)
+                self.call_obligations.append((f"iteration:{label}", goal, list(self.facts), list(self.pc)))
         for name, shape in declared:
             cur = env.lookup(name)
             if cur is None or isinstance(cur, VPoison):
@@ -916,6 +924,7 @@ class Interp:
         declared = self._loop_enter(st, env, st.target)
         if self.choose(2, "loop_iter_or_exit") == 0:
             elem = self.arbitrary_element(src)
+            self._loop_trace_mark = len(self.trace)
             self.assign(st.target, elem, env)
             try:
                 self.exec_block(st.body, env)
